@@ -132,3 +132,76 @@ func pathKeyOfObj(o types.Object) string {
 	}
 	return ptrStr(o)
 }
+
+// Role predicates by type, so that the rules do not depend on the names the relay code gives its
+// fields and locals.
+
+// isSessChan: e is a channel of pointers to one of the relays' queued-packet types (a session's
+// send queue, whether the struct field, the local it was made into, or the uplink's copy).
+func isSessChan(info *types.Info, e ast.Expr) bool {
+	t := info.TypeOf(e)
+	if t == nil {
+		return false
+	}
+	ch, ok := t.Underlying().(*types.Chan)
+	if !ok {
+		return false
+	}
+	pt, ok := ch.Elem().(*types.Pointer)
+	if !ok {
+		return false
+	}
+	return namedTypePkg(pt.Elem()) == mp("service") && strings.HasSuffix(namedTypeName(pt.Elem()), "QueuedPacket")
+}
+
+// isRelayTable: e selects the map-typed field of one of the relay types (the session table).
+func isRelayTable(info *types.Info, e ast.Expr) bool {
+	sel, ok := ast.Unparen(e).(*ast.SelectorExpr)
+	if !ok {
+		return false
+	}
+	s := info.Selections[sel]
+	if s == nil || s.Kind() != types.FieldVal {
+		return false
+	}
+	if _, isMap := s.Obj().Type().Underlying().(*types.Map); !isMap {
+		return false
+	}
+	rt := s.Recv()
+	if p, isPtr := rt.(*types.Pointer); isPtr {
+		rt = p.Elem()
+	}
+	name := namedTypeName(rt)
+	for _, t := range relayTypes {
+		if t == name {
+			return true
+		}
+	}
+	return false
+}
+
+// relayTableField returns the name of the (single) map-typed field of a relay type.
+func relayTableField(p *Prog, relayType string) string {
+	pkg := p.Pkg("service")
+	obj := pkg.Types.Scope().Lookup(relayType)
+	if obj == nil {
+		fatalf("anchor: type service.%s not found", relayType)
+	}
+	st, ok := obj.Type().Underlying().(*types.Struct)
+	if !ok {
+		fatalf("anchor: service.%s is not a struct", relayType)
+	}
+	name := ""
+	for i := 0; i < st.NumFields(); i++ {
+		if _, isMap := st.Field(i).Type().Underlying().(*types.Map); isMap {
+			if name != "" {
+				fatalf("anchor: service.%s has more than one map field (%s, %s): the session table is ambiguous", relayType, name, st.Field(i).Name())
+			}
+			name = st.Field(i).Name()
+		}
+	}
+	if name == "" {
+		fatalf("anchor: service.%s has no map field (session table)", relayType)
+	}
+	return name
+}
